@@ -314,6 +314,10 @@ func (am *AccountingManager) StopSession(sessionID string, terminateCause uint32
 	// Mark as stop pending for crash recovery
 	session.StopPending = true
 	session.StopCause = terminateCause
+	// The session leaves the table in the critical section that found it: a
+	// second StopSession for the same session (two termination paths racing)
+	// finds nothing and sends no second Accounting-Stop.
+	delete(am.sessions, sessionID)
 	am.sessionsMu.Unlock()
 
 	// Persist state before attempting stop
@@ -326,11 +330,6 @@ func (am *AccountingManager) StopSession(sessionID string, terminateCause uint32
 			zap.Error(err),
 		)
 	}
-
-	// Remove from active sessions
-	am.sessionsMu.Lock()
-	delete(am.sessions, sessionID)
-	am.sessionsMu.Unlock()
 
 	// Remove persisted session
 	am.removePersistedSession(sessionID)
